@@ -472,6 +472,10 @@ def run_stack_representation(ctx):
             ctx.disagree('Sh.stack: the model raises where the library returns a tensor', case, want, rep[:120])
             continue
         toks = rep.split()[1:]
+        ctx.count('stack-representation.' + ('theorem-applies' if toks[-1] == 'T' else 'fuel-exhausted'))
+        if toks[-1] != 'T':
+            ctx.disagree('Sh.stackResolved: the job is outside the hypothesis StackResolved of C06j.stack_dense', case, 'T', toks[-1])
+        toks = toks[:-1]
         i = 0; L = int(toks[i]); phys = toks[i + 1:i + 1 + L]; i += 1 + L
         P = int(toks[i]); pax = toks[i + 1:i + 1 + 2 * P]; i += 1 + 2 * P
         mp = [str(L)] + phys + [str(P)] + sum((['P', pax[2 * j], pax[2 * j + 1]] for j in range(P)), []) + toks[i:-1]
